@@ -146,6 +146,17 @@ def run(ctx):
             okv = all(any(o.kind == "call" and o.call.block in [c.block for c in sp] for o in origins(fh, st["rv"]["ops"][0], taint=True)) for blk, i, st in fh.assigns() if blk in oks and st["lhs"]["l"] == 0 and st["rv"]["k"] == "agg" and st["rv"].get("variant") == "Ok")
             r2.check(okv, "auth_query-secret-value", "the returned secret is the stripped hash", "fetch_hash returns something else than the stripped hash")
 
+    # logins are judged from the pool's snapshot of the user (pool.settings.user), so a reload that changes credentials must rebuild the pool:
+    # the definition hash that decides `unchanged => keep the old pool` has to cover the credential fields on every path
+    uh = ctx.body("<pgcat::config::User as core::hash::Hash>::hash", r2)
+    if uh:
+        rets_ = [bb for bb, blk in enumerate(uh.blocks) if blk["term"]["k"] == "return"]
+        for fld in ("password", "auth_type", "username"):
+            hb = [c.block for c in uh.calls("re:Hash>::hash$|Hash for .*>::hash$|::hash$") if fld in {p_[1:] for o in origins(uh, c.args[0]) if o.kind in ("place", "param") for p_ in o.proj if p_.startswith(".")}]
+            w = uh.uncrossed_path([0], rets_, blocks=hb) if hb else [0]
+            r2.check(bool(hb) and w is None, "credential-in-pool-hash:" + fld, "User.%s is hashed on every path of the pool definition hash" % fld,
+                     "User.%s is not (always) part of the pool definition hash: a reload that changes only this field keeps the old pool, whose snapshot keeps admitting the revoked password / skipping the new challenge" % fld)
+
     # ---------------- R3 pool must exist; R4 admin-only gate
     r3 = ctx.rule("C09-R3", "non-admin logins reach auth_ok only through the Some arm of get_pool(database, user)", floor=1)
     r4 = ctx.rule("C09-R4", "auth_ok is reached only if admin==true or admin_only==false; admin <=> database in {pgcat, pgbouncer}", floor=2)
